@@ -218,13 +218,17 @@ func LoadReplay(v any) error {
 // Checkpoint writes the execution about to run to disk so that, if the worker
 // dies (SIGSEGV, fatal error, out of memory), the runner can attribute the
 // crash to it.  Cheap enough for per-execution use only in crash-prone runs.
-func Checkpoint(prop string, replay any) {
+func Checkpoint(prop string, replay any) { CheckpointKey(prop, "", replay) }
+
+// CheckpointKey is Checkpoint with a hint for the stable key of the violation
+// the runner records if the worker dies during this execution.
+func CheckpointKey(prop, keyHint string, replay any) {
 	dir := os.Getenv("VERIF_OUT")
 	if dir == "" {
 		return
 	}
 	i, _ := Shard()
-	b, _ := json.Marshal(map[string]any{"property": prop, "replay": replay})
+	b, _ := json.Marshal(map[string]any{"property": prop, "replay": replay, "key_hint": keyHint})
 	os.WriteFile(filepath.Join(dir, fmt.Sprintf("%s.%d.current", prop, i)), b, 0o644)
 }
 
